@@ -96,6 +96,8 @@ type c17Snap struct {
 	lastRed   string
 	days      uint64
 	gaugeDist sdk.Coins
+	gaugeFill uint64
+	ownerBal  sdkmath.Int
 	commPool  sdk.DecCoins
 }
 
@@ -112,14 +114,16 @@ func (w *c17World) snap() c17Snap {
 	s.days, _ = ch.App.ProtoRevKeeper.GetDaysSinceModuleGenesis(ctx)
 	if g, err := ch.App.IncentivesKeeper.GetGaugeByID(ctx, w.gaugeID); err == nil {
 		s.gaugeDist = g.DistributedCoins
+		s.gaugeFill = g.FilledEpochs
 	}
+	s.ownerBal = ch.Bal(ch.Accs[0].Addr, "uosmo")
 	fp, _ := ch.App.DistrKeeper.FeePool.Get(ctx)
 	s.commPool = fp.CommunityPool
 	return s
 }
 
 func runC17(c *vk.Ctx) {
-	c.R.Rule = "integrated part of C17 (the scripted-subscriber part runs in the pure binary). cases = (1) histories of 6..14 day-epoch blocks on a real app whose mint and incentives epochs are the 1h 'day' timer; before a seed-chosen subset of epoch blocks the developer vesting account is drained so that x/mint's AfterEpochEnd errors after minting; checked per epoch block: the block completes, the day timer advances by exactly one and stays on its grid, the gauge (incentives runs before mint) has paid, protorev's day counter (runs after mint) has advanced, and under the fault the uosmo supply, mint account, minter provisions, last reduction epoch and community pool are exactly as before the block while without it the supply grows by floor(provisions); (2) gas sweeps: the epochs BeginBlocker on forks at a block time past an epoch end under 24 gas limits from 1 to just below the gas an unlimited run needs — each must end in an out-of-gas panic reaching the caller — and at/above it, where the resulting all-store digest must equal the unlimited run's. distinct_nontrivial counts distinct (part, fault?, reduction epoch?, outcome / limit bucket) tuples."
+	c.R.Rule = "integrated part of C17 (the scripted-subscriber part runs in the pure binary). cases = (1) histories of 6..14 day-epoch blocks on a real app whose mint and incentives epochs are the 1h 'day' timer; before a seed-chosen subset of epoch blocks the developer vesting account is drained so that x/mint's AfterEpochEnd errors after minting, before another subset the incentives module account is emptied so that the gauge distribution fails at its sends after the gauge records were updated; checked per epoch block: the block completes, the day timer advances by exactly one and stays on its grid, the gauge (incentives runs before mint) has paid, protorev's day counter (runs after mint) has advanced, and under the fault the uosmo supply, mint account, minter provisions, last reduction epoch and community pool are exactly as before the block while without it the supply grows by floor(provisions); (2) gas sweeps: the epochs BeginBlocker on forks at a block time past an epoch end under 24 gas limits from 1 to just below the gas an unlimited run needs — each must end in an out-of-gas panic reaching the caller — and at/above it, where the resulting all-store digest must equal the unlimited run's. distinct_nontrivial counts distinct (part, fault?, reduction epoch?, outcome / limit bucket) tuples."
 	nHist := c.N(12, 160)
 	c.Cases("mint-fault", nHist, func(i int, r *vk.Rng) {
 		w := c17Setup(c, r)
@@ -148,11 +152,21 @@ func runC17(c *vk.Ctx) {
 				ch.ResetCtx()
 			}
 			fault := r.Intn(3) == 0
+			// a second lever: the incentives module account is emptied, so the gauge distribution fails at its
+			// sends after the gauges' own records were already updated in the hook's branch
+			faultInc := !fault && r.Intn(4) == 0
 			var drained sdk.Coins
 			if fault {
 				drained = ch.AllBal(ch.Ctx, w.vesting)
 				if err := ch.App.BankKeeper.SendCoinsFromModuleToAccount(ch.Ctx, minttypes.DeveloperVestingModuleAcctName, holder, drained); err != nil {
 					c.Violate("C17.setup", nil, "drain: %v", err)
+					return
+				}
+			}
+			if faultInc {
+				drained = ch.AllBal(ch.Ctx, authtypes.NewModuleAddress(incentivestypes.ModuleName))
+				if err := ch.App.BankKeeper.SendCoinsFromModuleToAccount(ch.Ctx, incentivestypes.ModuleName, holder, drained); err != nil {
+					c.Violate("C17.setup", nil, "drain incentives: %v", err)
 					return
 				}
 			}
@@ -178,6 +192,12 @@ func runC17(c *vk.Ctx) {
 					return
 				}
 			}
+			if faultInc {
+				if err := ch.App.BankKeeper.SendCoinsFromAccountToModule(ch.Ctx, holder, incentivestypes.ModuleName, drained); err != nil {
+					c.Violate("C17.setup", nil, "refill incentives: %v", err)
+					return
+				}
+			}
 			sig := map[string]any{"fault": fault}
 			c.Logf("epoch block %d fault=%v: day %d->%d supply %s->%s days %d->%d gauge %s->%s", e, fault, before.day, after.day, before.supply, after.supply, before.days, after.days, before.gaugeDist, after.gaugeDist)
 			if after.day != before.day+1 {
@@ -190,6 +210,19 @@ func runC17(c *vk.Ctx) {
 			}
 			if before.day == 0 {
 				continue // the very first tick only starts counting: no end-of-epoch signal
+			}
+			if faultInc {
+				// the incentives hook failed: nothing it did may be visible, everybody after it still ran
+				if !after.gaugeDist.Equal(before.gaugeDist) || after.gaugeFill != before.gaugeFill {
+					c.Violate("C17.failed_hook_state_visible", map[string]any{"fault": "incentives"}, "the incentives module account was empty at the end of day %d, so its hook failed, yet the gauge record moved: distributed %s -> %s, filled epochs %d -> %d", before.day, before.gaugeDist, after.gaugeDist, before.gaugeFill, after.gaugeFill)
+					return
+				}
+				if after.days != before.days+1 || !after.offSupply.Sub(before.offSupply).Equal(after.provis.TruncateInt()) {
+					c.Violate("C17.later_subscriber_not_run", map[string]any{"fault": "incentives"}, "after the incentives hook failed at the end of day %d the later subscribers did not run normally: protorev days %d -> %d, reported supply +%s with provisions %s", before.day, before.days, after.days, after.offSupply.Sub(before.offSupply), after.provis)
+					return
+				}
+				c.Class("mint-fault|incentives-fault|day%d", bucket(int(before.day)))
+				continue
 			}
 			if !after.gaugeDist.IsAllGT(before.gaugeDist) && !(before.gaugeDist.IsZero() && !after.gaugeDist.IsZero()) {
 				c.Violate("C17.earlier_subscriber_not_run", sig, "incentives (before mint in the hook order) did not pay the gauge at the end of day %d (fault=%v): distributed %s -> %s", before.day, fault, before.gaugeDist, after.gaugeDist)
